@@ -236,7 +236,10 @@ def judge(kind, op, before, after, chk, res=None):
     return bad
 
 
-def run(prop, tier, seed, replay=None):
+def run(prop, tier, seed, replay=None, only_ops=None):
+    """only_ops (embedded use by another family's check, e.g. C16: {"resize"}): the fault enumeration
+    restricted to these operations in every pre-state; no evidence file, no verdict lines; returns
+    (violations, known, stats)"""
     t0 = time.time()
     quick = tier == "quick"
     build_harness(["crashvictim"])
@@ -257,7 +260,10 @@ def run(prop, tier, seed, replay=None):
             only = None
             for pre, ops in PLAN.items():
                 for op, arg in ops:
-                    if quick and (pre, op) not in QUICK:
+                    if only_ops is not None:
+                        if op not in only_ops:
+                            continue
+                    elif quick and (pre, op) not in QUICK:
                         continue
                     pairs.append((pre, op, arg))
         bases = {}
@@ -452,6 +458,11 @@ def run(prop, tier, seed, replay=None):
             retries_after_recovery=len([o for o in outcomes if o.get("retry")]),
             model_prefix_states_checked=len(result["recs"]), model_alarms=result["failed"][:20],
             spec_drift=drift[:20], exhaustive=not quick)
+        if only_ops is not None:
+            for _, rec in violations:
+                rec["scenario"] = dict(layer="L3")
+            return violations, known, dict(operations=list(infos), crash_points=nk, failed_calls=nf,
+                                           retries_after_recovery=len([o for o in outcomes if o.get("retry")]))
         write_evidence(prop, tier, seed, "fault_enumeration", coverage, assumptions, time.time() - t0, len(violations))
         seen = set()
         for k, rec in known:
